@@ -156,6 +156,11 @@ def _main(a, prop, seed, t0):
         print(f"baseline written: {len(names)-len(failed)} proved obligation names ({len(failed)} failed not listed)")
     baseline = set(json.load(open(base_path))) if os.path.exists(base_path) else set()
     missing = sorted(baseline - set(names))          # proved before, not even generated now
+    # safety obligations are NAMED after the source text of the expression / call they guard (index:a[i], shape:..., pre-at-call:f:...@f(x)); a harmless edit
+    # (renamed local, extracted helper) renames them.  Their absence alone decides nothing: the obligations generated from the current source are all
+    # checked, and the semantic ones (post / loop / lemma / frame / reject) keep their names -- those must still be generated.
+    renamed_safety = [n for n in missing if re.search(r'/(index|shape)/', n) or (re.search(r'/pre/', n) and '@' in n)]
+    missing = [n for n in missing if n not in set(renamed_safety)]
     # ---- runtime side: concrete interpretation of the contracts on the real code (bounded; refutation + validation)
     rt = None
     focus = set(failed) | set(missing)
@@ -234,7 +239,7 @@ def _main(a, prop, seed, t0):
                             units=info['units'], paths=info['paths'], unsupported=info['unsupported'],
                             rejected_paths=[dict(unit=x['unit'], exc=x['exc'], line=x['where']) for x in info['raised']][:40],
                             samples=sample_ob,
-                            baseline_names=len(baseline), baseline_missing=missing,
+                            baseline_names=len(baseline), baseline_missing=missing, baseline_safety_obligations_renamed=renamed_safety[:40],
                             failed_obligations=[dict(name=n, results=by_name[n]['results']) for n in failed],
                             bounded=(rt['coverage'] if rt else None),
                             known_findings_printed=[k for k, _ in known_lines]),
